@@ -54,6 +54,28 @@ type C01Unit struct {
 	Seed      int64         `json:"seed"`
 }
 
+// aliasOps get, also under faults and crashes, the relations in which the output is the input under
+// another spelling or link, and an output path that is a symbolic link to an existing file: fallbacks
+// that are taken only after a failure (writing the output directly when no staging file can be
+// created) do their damage exactly there.
+var aliasOps = map[string]bool{"optimize": true, "rotate": true, "encrypt": true, "attach-add": true, "trim": true, "nup": true, "copyfile": true}
+
+var aliasRels = []string{ops.RelDotSlash, ops.RelRelAbs, ops.RelSymlink, ops.RelHardlink}
+
+func extraRels(n string, o *ops.Op) []string {
+	var rr []string
+	if o.Family == "single" && strings.HasPrefix(n, "cli-stdin-") {
+		rr = append(rr, ops.RelExistingLink)
+	}
+	if aliasOps[n] {
+		rr = append(rr, ops.RelExistingLink)
+		if o.Family == "single" {
+			rr = append(rr, aliasRels...)
+		}
+	}
+	return rr
+}
+
 func allConfigs() []engine.Config {
 	var cc []engine.Config
 	for _, n := range ops.Names() {
@@ -62,6 +84,9 @@ func allConfigs() []engine.Config {
 			continue // C06/C07/C02
 		}
 		for _, rel := range o.Rels {
+			cc = append(cc, engine.Config{Op: n, Rel: rel})
+		}
+		for _, rel := range extraRels(n, o) {
 			cc = append(cc, engine.Config{Op: n, Rel: rel})
 		}
 	}
